@@ -124,10 +124,9 @@ def check(ctx: Ctx) -> None:
     ft = repo.func("gateway_base.WorkerPool._try_send_to_primary_thread")
     cfgt = build_cfg(repo, ft, Oracle(repo, ft, precise=True))
     with ctx.obligation("C14.c", "main-thread-arm") as ob:
-        al = local_aliases(repo, ft)
-        base = Facts(repo, ft, al)
-        base.set_atom("self.execmodel.backend == 'main_thread_only'", True)
-        base.set_atom("self._primary_thread_task_ready is None", False)
+        base = Facts(repo, ft, {}, expand_locals=True)
+        base.assume_src("self.execmodel.backend == 'main_thread_only'", True)
+        base.assume_src("self._primary_thread_task_ready is None", False)
         n_false = 0
         for path, facts in feasible_paths(repo, ft, cfgt, base, kill_on_store=False):
             last = cfgt.nodes[path[-2][0]]
@@ -141,8 +140,8 @@ def check(ctx: Ctx) -> None:
             if val is True:
                 continue
             n_false += 1
-            isset = facts.get("self._primary_thread_task_ready.is_set()")
-            mailbox_none = facts.get("self._primary_thread_task is None")
+            isset = facts.value_src("self._primary_thread_task_ready.is_set()")
+            mailbox_none = facts.value_src("self._primary_thread_task is None")
             ob.site(ft, last.ast, "path returning False under main_thread_only", is_set=isset, mailbox_is_None=mailbox_none,
                     path=cfgt.describe_path(path))
             if not (isset is True and mailbox_none is True):
